@@ -32,8 +32,11 @@ class Src:
 
     NARROW_STRS = ("", "a", "1")
 
-    def __init__(self, params: dict, narrow=False):
+    def __init__(self, params: dict, narrow=False, strs=None):
         self.p = params
+        if strs is not None:
+            self.NARROW_STRS = tuple(strs)
+            narrow = "strs"
         self.narrow = narrow  # leaves restricted to tiny domains (ints [-1,1], 3 strings): used where the
         self.n = {"i": 0, "s": 0, "b": 0, "f": 0, "y": 0}  # code under test stringifies / realises them
 
@@ -44,7 +47,7 @@ class Src:
 
     def int(self, lo=None, hi=None):
         x = self._next("i")
-        if lo is None and hi is None and self.narrow:
+        if lo is None and hi is None and self.narrow is True:
             lo, hi = -1, 1
         if lo is not None:
             assume(lo <= x)
@@ -61,8 +64,10 @@ class Src:
     def str(self, maxlen=2):
         s = self._next("s")
         if self.narrow:
-            a, b, c = self.NARROW_STRS
-            assume(s == a or s == b or s == c)
+            ok = False
+            for cand in self.NARROW_STRS:
+                ok = ok or s == cand
+            assume(ok)
             return s
         assume(len(s) <= maxlen)
         return s
